@@ -1,6 +1,6 @@
 (* C10 — Only authentic revocation updates are accepted. *)
 From Coq Require Import ZArith List.
-From Gabi Require Import ModArith GoSem Revocation RevocationSound.
+From Gabi Require Import ModArith GoSem Revocation RevocationSound SaccCache.
 Import ListNotations.
 Open Scope Z_scope.
 
@@ -46,3 +46,17 @@ Theorem prepend_atomic :
   (r = PrepOk -> evs = [] \/ exists acc, up_sacc u = SvOk acc /\ up_sacc u' = up_sacc u /\
                                           events_verify (up_events u') (ra_EventHash acc) = Ok tt).
 Proof. exact prepend_atomic_lem. Qed.
+
+(* The signed accumulator remembers its decoded content once the signature has been verified.  Over every history of
+   verification calls on one object (any keys, any order): an accumulator is only ever handed out, or left in the
+   cache, if the signature oracle accepted it in that history for a key with the matching counter -- a rejected
+   accumulator never becomes accepted later ... *)
+Theorem accumulator_cache_sound :
+  forall sc calls cache rs final, uv_run sc cache calls = (rs, final) ->
+  forall a, In (Ok a) rs \/ final = Some a -> cache = Some a \/ vouched sc calls a.
+Proof. exact uv_history_sound_lem. Qed.
+
+(* ... and verifying the same object again with the same key never changes the verdict. *)
+Theorem reverification_stable :
+  forall sc c k, let '(rs, _) := uv_run sc None (repeat c k) in Forall (fun r => r = uv_fresh sc c) rs.
+Proof. exact uv_repeat_stable_lem. Qed.
